@@ -279,6 +279,9 @@ class Ev:
             x, y = args
             if isinstance(x, RefTo) and isinstance(y, RefTo):
                 P.env[x.root], P.env[y.root] = P.env[y.root], P.env[x.root]; return [(P, Tup([]))]
+            if str((fn.get("args") or [""])[0]).lstrip().startswith("&"):
+                # `mem::swap::<&mut [T]>(&mut first, &mut second)` exchanges two REFERENCES held in locals: no cell moves
+                return [(P, Tup([]))]
         if path == "core::num::<impl usize>::checked_sub" and isinstance(args[0], Poly) and isinstance(args[1], Poly):
             return [(P, Gamma(Cond(">=", args[0] - args[1]), Adt("Option", "Some", [args[0] - args[1]]), Adt("Option", "None", [])))]
         if path in ("core::num::<impl usize>::checked_mul", "core::num::<impl usize>::checked_add"):
